@@ -491,7 +491,18 @@ func granted(p capnp.Ptr, dcap, pcap, fuel int, total *uint64, refused *bool) {
 // ConcCase: k goroutines walk the same message concurrently; checks the accounting
 // invariants that theorem traversal_bound_conc states for every interleaving:
 // granted <= T always, and final = T - granted when nothing was refused.
-func ConcCase(m *Msg, k, dcap, pcap, fuel int) string {
+func ConcCase(m *Msg, k, dcap, pcap, fuel int) (res string) {
+	// a panic of the library on the calling goroutine (e.g. in the probing Root()) is a result
+	// of this case, with the case line as the failing input, not a crash of the harness
+	defer func() {
+		if r := recover(); r != nil {
+			res = fmt.Sprintf("VIOLATION panic: %v", r)
+		}
+	}()
+	return concCase(m, k, dcap, pcap, fuel)
+}
+
+func concCase(m *Msg, k, dcap, pcap, fuel int) string {
 	msg := m.Build()
 	T := m.T
 	if T == 0 {
@@ -546,7 +557,18 @@ func ConcCase(m *Msg, k, dcap, pcap, fuel int) string {
 // objects; by theorem traversal_bound_conc at most k calls succeed under every interleaving
 // (and exactly k when at least k are attempted).  rounds fresh messages are tried; the
 // observation is the verdict.
-func ExhaustCase(m *Msg, g, k, rounds int) string {
+func ExhaustCase(m *Msg, g, k, rounds int) (res string) {
+	// a panic of the library on the calling goroutine (e.g. in the probing Root()) is a result
+	// of this case, with the case line as the failing input, not a crash of the harness
+	defer func() {
+		if r := recover(); r != nil {
+			res = fmt.Sprintf("VIOLATION panic: %v", r)
+		}
+	}()
+	return exhaustCase(m, g, k, rounds)
+}
+
+func exhaustCase(m *Msg, g, k, rounds int) string {
 	probe := m.Build()
 	root, err := probe.Root()
 	if err != nil {
@@ -593,7 +615,18 @@ func ExhaustCase(m *Msg, g, k, rounds int) string {
 // holding the same bytes and read again (again exactly k must succeed: Reset re-arms the
 // CONFIGURED limit, not the default); then the same through Decoder.ReuseBuffer, which resets
 // the one Message it hands out on every Decode.
-func ReuseCase(m *Msg, k int) string {
+func ReuseCase(m *Msg, k int) (res string) {
+	// a panic of the library on the calling goroutine (e.g. in the probing Root()) is a result
+	// of this case, with the case line as the failing input, not a crash of the harness
+	defer func() {
+		if r := recover(); r != nil {
+			res = fmt.Sprintf("VIOLATION panic: %v", r)
+		}
+	}()
+	return reuseCase(m, k)
+}
+
+func reuseCase(m *Msg, k int) string {
 	probe := m.Build()
 	root, err := probe.Root()
 	if err != nil {
